@@ -102,6 +102,16 @@ def case_modes(case):
         for off in (0, 3):
             sub = np.ascontiguousarray(X[:, off : off + k_])
             r.close("vector at a point independent of the number of points requested together", np.array(srf(sub)), U[:, off : off + k_], rtol=1e-12, atol=1e-13, npoints=k_, **extra)
+    # degenerate requests: the origin alone (every coordinate zero), several coincident points there, a point on
+    # a coordinate axis - the defining sum at these points
+    u0 = mv * e1 + (fac * proj * g._z_1[None, :]).sum(axis=1)
+    for req in (np.zeros((d, 1)), np.zeros((d, 3))):
+        r.close("request consisting of the origin only == defining sum at 0", np.array(srf(req)), np.repeat(u0[:, None], req.shape[1], axis=1), rtol=0, atol=max(tol, 1e-12), npoints=req.shape[1], **extra)
+    r.close("request of the origin as a tuple of scalars == defining sum at 0", np.array(srf(tuple(0.0 for _ in range(d)))).reshape(d), u0, rtol=0, atol=max(tol, 1e-12), **extra)
+    onax = np.zeros((d, 2))
+    onax[d - 1, 1] = 1.7
+    ph_ = k.T @ m.isometrize(onax)
+    r.close("request of the origin and a point on the last axis == defining sum", np.array(srf(onax)), (mv * e1)[:, None] + (fac * proj * g._z_1[None, :]) @ np.cos(ph_) + (fac * proj * g._z_2[None, :]) @ np.sin(ph_), rtol=0, atol=max(tol, 1e-12), **extra)
     # a second request at positions that agree with the first within numpy.allclose is answered at the new positions
     far = X + np.array([4.5e5, 5.4e6, 120.0])[:d, None]
     u_far0 = np.array(srf(far))
@@ -149,7 +159,10 @@ def case_history(case):
     r = R()
     st = {"dim": case["dim"], "mode_no": 8, "seed": case["seed"], "mv": 1.0, "len": 2.0, "var": 1.7}
     kw = OPTS.get(case["cls"], {})
-    m = getattr(gs, case["cls"])(dim=st["dim"], var=st["var"], len_scale=st["len"], **kw)
+    # "aniso_start": the object is first used with an anisotropic model (stretched positions); one operation of the
+    # history makes the model isotropic again
+    st["anis"] = [0.5, 0.7][: st["dim"] - 1] if case.get("aniso_start") else None
+    m = getattr(gs, case["cls"])(dim=st["dim"], var=st["var"], len_scale=st["len"], **kw, **({"anis": st["anis"]} if st["anis"] else {}))
     srf = gs.SRF(m, generator="VectorField", mode_no=st["mode_no"], seed=st["seed"], mean_velocity=st["mv"])
     rng = np.random.RandomState(4)
     srf(rng.uniform(-3, 3, size=(st["dim"], 5)))
@@ -168,6 +181,16 @@ def case_history(case):
         elif k == "len":
             srf.model.len_scale = op["v"]
             st["len"] = op["v"]
+        elif k == "iso":
+            if op["how"] == "integral_scale":
+                srf.model.integral_scale = [op["v"]] * st["dim"]
+            elif op["how"] == "len_list":
+                srf.model.len_scale = [op["v"]] * st["dim"]
+            else:
+                srf.model.anis = 1.0
+            st["len"] = float(srf.model.len_scale)
+            st["anis"] = None
+            r.true("model is isotropic after the assignment", bool(srf.model.is_isotropic), how=op["how"])
         elif k == "assign_var":
             srf.model = getattr(gs, case["cls"])(dim=st["dim"], var=op["v"], len_scale=st["len"], **kw)
             st["var"] = op["v"]
@@ -179,7 +202,7 @@ def case_history(case):
             st["seed"] = op["v"]
     d = st["dim"]
     extra = {"cls": case["cls"], "dim": d, "last": case["hist"][-1]["k"]}
-    fm = getattr(gs, case["cls"])(dim=d, var=st["var"], len_scale=st["len"], **kw)
+    fm = getattr(gs, case["cls"])(dim=d, var=st["var"], len_scale=st["len"], **kw, **({"anis": st["anis"]} if st["anis"] else {}))
     fresh = gs.SRF(fm, generator="VectorField", mode_no=st["mode_no"], seed=st["seed"], mean_velocity=st["mv"])
     X = rng.uniform(-6, 6, size=(d, 12))
     U, V = np.array(srf(X), dtype=float), np.array(fresh(X), dtype=float)
@@ -190,7 +213,7 @@ def case_history(case):
     g = fresh.generator
     kv = np.array(g._cov_sample, dtype=float)
     kn = np.linalg.norm(kv, axis=0)
-    if np.all(np.isfinite(kn)) and kn.max() < 40.0:
+    if np.all(np.isfinite(kn)) and kn.max() < 40.0 and st["anis"] is None:
         h = 1e-3
         amp = abs(st["mv"]) * math.sqrt(st["var"] / st["mode_no"]) * (np.abs(g._z_1) + np.abs(g._z_2))
         div = np.zeros(X.shape[1])
@@ -283,7 +306,14 @@ def run(chk):
                     if hist[-1]["k"] == "call":
                         continue
                     hc.append({"cls": cls, "dim": d, "seed": 5 + 32 * seed, "hist": list(hist)})
-    chk.run("history", case_history, hc, rule="model x dim x every history of length <= 2 (thorough 3) over {call, mode_no := 4 | 16 (from 8), model.dim := 2 | 3 in place, model.len_scale in place, model re-assignment, mean velocity, seed}: the object was used before; field equals a freshly built generator with the final settings and is divergence-free", chunk=8, max_skip_frac=0.5)
+            iso_ops = [{"k": "iso", "how": "integral_scale", "v": 1.6}, {"k": "iso", "how": "len_list", "v": 2.4}, {"k": "iso", "how": "anis"}]
+            plain = [o for o in HOPS if o["k"] not in ("dim", "assign_var")]
+            for io in iso_ops:
+                hc.append({"cls": cls, "dim": d, "seed": 5 + 32 * seed, "hist": [io], "aniso_start": True})
+                for o in plain:
+                    hc.append({"cls": cls, "dim": d, "seed": 5 + 32 * seed, "hist": [io, o], "aniso_start": True})
+                    hc.append({"cls": cls, "dim": d, "seed": 5 + 32 * seed, "hist": [o, io], "aniso_start": True})
+    chk.run("history", case_history, hc, rule="model x dim x every history of length <= 2 (thorough 3) over {call, mode_no := 4 | 16 (from 8), model.dim := 2 | 3 in place, model.len_scale in place, model re-assignment, mean velocity, seed}, and histories that start with an anisotropic model and make it isotropic (integral_scale list, len_scale list, anis := 1) combined with one more operation: the object was used before; field equals a freshly built generator with the final settings and is divergence-free", chunk=8, max_skip_frac=0.5)
     lc = [{"cls": c, "dim": d, "mode_no": N_, "seed0": 64 * seed, "nseeds": (32 if tier == "quick" else 256) * 64 // N_} for d in (2, 3) for c in ["Gaussian", "Exponential"] for N_ in (4, 16, 63)]
     lc += [{"cls": c, "dim": d, "mode_no": 64, "seed0": 64 * seed, "nseeds": 32 if tier == "quick" else 256} for d in (2, 3) for c in (["Gaussian", "Exponential"] if tier == "quick" else ["Gaussian", "Exponential", "Matern", "Rational"])]
     chk.run("direction_law", case_law, lc, rule="complete seed window (32 quick / 256 thorough seeds x 64 modes; also 4, 16 and 63 modes per generator with correspondingly more seeds): pooled average of the squared projector components against (3/8, 1/8) in 2-D and (8/15, 1/15, 1/15) in 3-D with 6-sigma acceptance", nproc=8)
